@@ -24,15 +24,23 @@ def gen_cases(seed, tier, n):
         c["params"] = {"mem": rng.random() < 0.5}
         if i % 3 == 1:
             tracegen.relabel_ranks(c)      # a subset of a job: rank ids are not 0..n-1, and not listed in order
+        if i % 8 == 6:
+            fw.set_quarter_us(c)           # quarter-microsecond resolution (framework.resolution)
         out.append(c)
     return out
 
 
 def run_impl(case, d):
-    ta, paths = fw.load_case(case, d)
+    with fw.resolution(case):
+        return _run_impl(case, d)
+
+
+def _run_impl(case, d):
+    k = fw.time_scale(case)
+    ta, paths = fw.load_case_res(case, d)
     sym = ta.t.symbol_table.get_sym_table()
     ranks = sorted(ta.t.get_ranks())
-    frames = {r: fw.dump_frame(ta.t.get_trace(r), sym) for r in ranks}
+    frames = {r: fw.dump_frame_res(case, ta.t.get_trace(r), sym) for r in ranks}
     mem = case["params"]["mem"]
     # two calls in sequence in one process (first with the drawn flag, then with the opposite one): a call must not
     # depend on the calls made before it
@@ -43,12 +51,27 @@ def run_impl(case, d):
             out = {}
             for r in ranks:
                 df = res[r]
-                out[r] = sorted([fw.as_int(a), fw.as_int(b_), fw.as_int(c_), fw.as_int(d_)] for a, b_, c_, d_ in
+                out[r] = sorted([fw.as_int(a), fw.as_int(b_ * k), fw.as_int(c_ * k), fw.as_int(d_ * k)] for a, b_, c_, d_ in
                                 zip(df["correlation"], df["cpu_duration"], df["gpu_duration"], df["launch_delay"]))
         except Exception as e:
             out = {"error": type(e).__name__ + ": " + str(e)[:200]}
         outs.append(out)
-    return {"frames": frames, "out": outs[0], "out2": outs[1]}
+        if flag == mem and case.get("case_no", 0) % 2 == 0:
+            # history: another analysis of the same object in between (critical path over an annotation window of one rank);
+            # whether it succeeds is not this property's business, but the second call must still see the whole trace
+            try:
+                import random as _r
+                import cp_common as cp
+                rng = _r.Random(len(ranks) * 7919 + sum(len(v) for v in frames.values()))
+                r0 = rng.choice(ranks)
+                ann, inst = cp.draw_window(rng, frames[r0])
+                if cp.window_has_events(frames[r0], ann, inst):
+                    ta.critical_path_analysis(rank=r0, annotation=ann, instance_id=inst)
+            except Exception:
+                pass
+    after = {r: fw.dump_frame_res(case, ta.t.get_trace(r), sym) for r in ranks}
+    altered = [r for r in ranks if after[r] != frames[r]]
+    return {"frames": frames, "out": outs[0], "out2": outs[1], "altered": altered}
 
 
 def coq_term(case, impl):
@@ -59,6 +82,8 @@ def coq_term(case, impl):
 
 def compare(case, impl, model):
     disc = []
+    if impl.get("altered"):
+        disc.append(f"the loaded trace of rank(s) {impl['altered']} is no longer what was loaded after the analyses ran on it")
     for which, key in ((0, "out"), (1, "out2")):
         o = impl[key]
         if "error" in o:
